@@ -132,6 +132,40 @@ func RunC07(c *engine.Ctx) {
 			}
 		}
 	}
+	// histories with one key buffer overwritten in place between calls (A, B, A, ...): no state may be carried by reference
+	for _, ct := range cksumTypes {
+		et, _ := rcrypto.EtypeForCksum(ct)
+		g, err := crypto.GetChksumEtype(ct)
+		if err != nil {
+			continue
+		}
+		ks := keys(et, 2, c.Seed+3)
+		kb := make([]byte, len(ks[0]))
+		data := randBytes(r, 33)
+		db := make([]byte, len(data))
+		for _, u := range []uint32{3, 6, 15, 23} {
+			for step, which := range []int{0, 1, 0, 1, 1, 0} {
+				copy(kb, ks[which])
+				copy(db, data)
+				db[0] ^= byte(step)
+				cs := c07case{Cksum: ct, Len: len(db), Usage: u, Key: hex.EncodeToString(ks[which]), Data: hex.EncodeToString(db), What: fmt.Sprintf("alias-history step %d (key and data buffers overwritten in place)", step)}
+				got, gerr := g.GetChecksumHash(kb, db, u)
+				want, _ := rcrypto.Checksum(et, ks[which], u, db)
+				evals++
+				if gerr != nil || !bytes.Equal(got, want) {
+					c.Violate("alias", fmt.Sprintf("alias:ck%d:value-under-stale-key-or-data", ct), map[string]interface{}{"got": hex.EncodeToString(got), "want": hex.EncodeToString(want)}, cs)
+					continue
+				}
+				other, _ := rcrypto.Checksum(et, ks[1-which], u, db)
+				if !g.VerifyChecksum(kb, db, want, u) || g.VerifyChecksum(kb, db, other, u) {
+					c.Violate("alias", fmt.Sprintf("alias:ck%d:verify-under-stale-key", ct), nil, cs)
+					continue
+				}
+				evals++
+				c.Distinct(fmt.Sprintf("alias/%d/%d/%d", ct, u, step))
+			}
+		}
+	}
 	// checksum-type registry: every id in -200..200
 	for id := int32(-200); id <= 200; id++ {
 		wantEt, known := rcrypto.EtypeForCksum(id)
